@@ -161,6 +161,51 @@ def load_facts(verbose=False):
     return facts, info
 
 
+def load_fixture_facts():
+    """Facts of /verif/fixtures/*.cc (positive controls), extracted with the same nvx and flags."""
+    fdir = os.path.join(VERIF, 'fixtures')
+    files = sorted(f for f in os.listdir(fdir) if f.endswith('.cc'))
+    h = hashlib.sha256()
+    for f in files:
+        h.update(open(os.path.join(fdir, f), 'rb').read())
+    st = os.stat(NVX)
+    h.update(('%d:%d' % (st.st_size, int(st.st_mtime))).encode())
+    key = 'fixtures-' + h.hexdigest()[:20]
+    os.makedirs(CACHE, exist_ok=True)
+    path = os.path.join(CACHE, key + '.fx')
+    lock = open(os.path.join(CACHE, 'lock'), 'w')
+    fcntl.flock(lock, fcntl.LOCK_EX)
+    try:
+        if not os.path.exists(path):
+            merged = {'functions': {}, 'classes': {}, 'enums': {}, 'globals': {}, 'units': files}
+            rdir = resource_dir()
+            for f in files:
+                out = path + '.' + f + '.json'
+                cmd = [NVX, out, fdir, os.path.join(fdir, f), '--', '-std=gnu++17', '-Wno-everything',
+                       '-resource-dir', rdir]
+                p = subprocess.run(cmd, stdout=subprocess.PIPE, stderr=subprocess.PIPE, text=True)
+                if p.returncode != 0 or not os.path.exists(out):
+                    raise AnalysisBroken('nvx failed on fixture %s: %s' % (f, p.stderr[-500:]))
+                data = json.load(open(out))
+                os.unlink(out)
+                for fn in data['functions']:
+                    fn['unit'] = f
+                    merged['functions'].setdefault(fn['id'], fn)
+                for c in data['classes']:
+                    merged['classes'].setdefault(c['name'], c)
+                for g in data['globals']:
+                    merged['globals'].setdefault(g['name'], g)
+            for old in os.listdir(CACHE):
+                if old.endswith('.fx') and old != key + '.fx':
+                    os.unlink(os.path.join(CACHE, old))
+            json.dump(merged, open(path + '.tmp', 'w'))
+            os.replace(path + '.tmp', path)
+        return json.load(open(path))
+    finally:
+        fcntl.flock(lock, fcntl.LOCK_UN)
+        lock.close()
+
+
 if __name__ == '__main__':
     f, i = load_facts(verbose=True)
     print(json.dumps({k: v for k, v in i.items() if k != 'unit_list'}, indent=1))
